@@ -70,8 +70,8 @@ CLAIMED = {
         note="PARTIAL: the oversized-RESPONSE replacement clause is outside (the replacement text is built with format!: the real formatter does not finish under CBMC and with it stubbed Kani reports spurious memory errors on that path; see DESIGN.md); async call sites (writer task, proxy, client pre-send) outside.",
         ref="DESIGN.md §4 C17"),
     "C19": dict(
-        text="(1) the blocking Fleet's retry loop (both copies: call_message_with_retry, call_json_with_retry) with the real ensure_connected / invalidate_client / is_retryable_error, over a symbolic per-attempt outcome script (refused; closed / reset / silent until timeout with any transport kind; undecodable reply; application error; success), max_attempts symbolic in 1..=3, optionally a cached connection that died while idle: attempts <= max_attempts, a further attempt only after a transport failure, the result is the last attempt's reply or error, a failed connection is never reused, and no client stays cached after a transport failure. (2) is_retryable_error in both fleets over all stable io::ErrorKinds and the non-I/O error variants.",
-        note="PARTIAL: the node's sockets are an environment model (Client::connect and the per-call exchange are scripted stubs; environment contract D = which error kinds a dead node produces, validated once natively by findings/C19_idle_close_demo.rs); the AsyncFleet loop (tokio clients cannot be constructed under Kani) is covered only through its is_retryable_error; tag filtering and broadcast fan-out are outside; more than one node and more than 3 attempts are outside the bound.",
+        text="(1) the blocking Fleet's retry loop (both copies: call_message_with_retry, call_json_with_retry) with the real ensure_connected / invalidate_client / is_retryable_error, over a symbolic per-attempt outcome script (refused; closed / reset / silent until timeout with any transport kind; undecodable reply; application error; success), max_attempts symbolic in 1..=3 (1..=4 in the thorough tier), optionally a cached connection that died while idle: attempts <= max_attempts, a further attempt only after a transport failure, the result is the last attempt's reply or error, a failed connection is never reused, and no client stays cached after a transport failure. (2) is_retryable_error in both fleets over all stable io::ErrorKinds and the non-I/O error variants.",
+        note="PARTIAL: the node's sockets are an environment model (Client::connect and the per-call exchange are scripted stubs; environment contract D = which error kinds a dead node produces, validated once natively by findings/C19_idle_close_demo.rs); the AsyncFleet loop (tokio clients cannot be constructed under Kani) is covered only through its is_retryable_error; tag filtering and broadcast fan-out are outside; more than one node and more than 4 attempts are outside the bound.",
         ref="DESIGN.md §4 C19"),
 }
 
